@@ -247,12 +247,35 @@ func TestVerifReplay(t *testing.T) {
     okr, outr, pathr = ck.go_test('sm2/internal', src, name='tables')
     if okr is True:
         ck.validated += len(rows)
+    # constants that are immediates inside the arm64 code (not DATA blocks): the GHASH reduction constant of gHashBlocks is
+    # checked through its effect - the routine, interpreted from the arm64 listing, must be the GHASH of the specification
+    try:
+        import arm64lib, random as _rnd
+        a64 = arm64lib.Env('c18')
+        r3 = _rnd.Random(ck.seed)
+        for count in (1, 2, 4, 9):
+            Hh = [r3.randrange(256) for _ in range(16)]
+            tag0 = [r3.randrange(256) for _ in range(16)]
+            data = [r3.randrange(256) for _ in range(16 * count)]
+            m64 = a64.m
+            m64.reset()
+            m64.run('gHashBlocks', {0: m64.add_region('h', Hh, False), 8: m64.add_region('tag', list(tag0)), 16: m64.add_region('data', data, False), 24: count})
+            y = int.from_bytes(bytes(tag0), 'big')
+            hv = int.from_bytes(bytes(Hh), 'big')
+            for i in range(count):
+                y = G.mul_int(y ^ int.from_bytes(bytes(data[16 * i:16 * i + 16]), 'big'), hv)
+            if bytes(m64.regions['tag'].cells) != y.to_bytes(16, 'big'):
+                fails.append(('arm64.GHASH-constant', 'arm64 gHashBlocks (reduction constant and shuffles as immediates in gcm_arm64.s) does not compute GHASH over x^128+x^7+x^2+x+1'))
+                break
+        CK_ = rk_bytes(S.CK)
+    except (asmsym.AsmUnsupported, RuntimeError, KeyError) as ex:
+        ck.record('arm64_immediates', 'inconclusive', 'arm64 gHashBlocks could not be interpreted: %s' % str(ex)[:160])
     keys = {}
     for k, d in fails:
         keys.setdefault(k.split('[')[0], []).append((k, d))
     for k, fl in sorted(keys.items()):
         ck.record('const[' + k + ']', 'violated', '%s (%d entries)' % (fl[0][1], len(fl)), sample=dict(entry=fl[0][0]))
-        ck.violation(k, fl[0][1], pathr if (okr is False and k.startswith('sm2')) else os.path.join(REPO, {'sm4': 'sm4/sm4_const.go', 'sm3': 'sm3/sm3.go', 'sm2': 'sm2/internal/sm2_tables.go', 'asm': 'sm4/com_amd64.s', 'arm64': 'sm4/asm_arm64.s'}.get(k.split('.')[0], '')))
+        ck.violation(k, fl[0][1], pathr if (okr is False and k.startswith('sm2')) else os.path.join(REPO, {'sm4': 'sm4/sm4_const.go', 'sm3': 'sm3/sm3.go', 'sm2': 'sm2/internal/sm2_tables.go', 'asm': 'sm4/com_amd64.s', 'arm64': 'sm4/gcm_arm64.s' if 'GHASH' in k else 'sm4/asm_arm64.s'}.get(k.split('.')[0], '')))
     if okr is False and not fails:
         ck.record('table_replay', 'violated', 'table-driven base multiplication differs from the reference: ' + (outr or '')[-200:].replace('\n', ' '))
         ck.violation('tables-replay', 'table-driven base multiplication differs from the reference', pathr)
